@@ -142,6 +142,15 @@ type thrCase struct {
 	Healthy   uint32    `json:"healthy_threshold"`
 	Unhealthy uint32    `json:"unhealthy_threshold"`
 	Hosts     []thrHost `json:"hosts"`
+	// Reshape (two hosts, scripts of S and F only): after RemoveAfter results of host 1 the host set is updated to
+	// [host 0]; after ReaddAfter further results of host 0 it is updated to [host 0, a fresh host object of host 1's
+	// address]. Host 1's remaining script is served to the checker started for the re-added host.
+	Reshape *thrReshape `json:"reshape,omitempty"`
+}
+
+type thrReshape struct {
+	RemoveAfter int `json:"remove_after"`
+	ReaddAfter  int `json:"readd_after"`
 }
 
 type thrObs struct {
@@ -215,24 +224,48 @@ func TestPropThresholds(t *testing.T) {
 			Unhealthy: uint32(rapid.IntRange(1, 5).Draw(rt, "unhealthyThreshold")),
 		}
 		nh := rapid.IntRange(1, 2).Draw(rt, "nHosts")
+		reshape := nh == 2 && rapid.IntRange(0, 3).Draw(rt, "reshape") == 0
 		for i := 0; i < nh; i++ {
+			sc := genScript(rt)
+			if reshape {
+				// the checker of host 1 is stopped and started again: only checks that answer at once
+				sc = strings.Map(func(r rune) rune {
+					if r == 'T' || r == 'L' {
+						return 'F'
+					}
+					return r
+				}, sc)
+				for len(sc) < 6 {
+					sc += sc + "SF"
+				}
+			}
 			c.Hosts = append(c.Hosts, thrHost{
-				Script:        genScript(rt),
+				Script:        sc,
 				PresetActive:  rapid.IntRange(0, 5).Draw(rt, "presetActive") == 3,
 				PresetOutlier: rapid.IntRange(0, 5).Draw(rt, "presetOutlier") == 3,
 			})
+		}
+		if reshape {
+			c.Reshape = &thrReshape{
+				RemoveAfter: rapid.IntRange(1, len(c.Hosts[1].Script)-2).Draw(rt, "removeAfter"),
+				ReaddAfter:  rapid.IntRange(0, 3).Draw(rt, "readdAfter"),
+			}
 		}
 		runThresholdCase(rt, c)
 	})
 }
 
 type thrHostRun struct {
-	host    types.Host
-	sess    *scriptedSession
-	mu      sync.Mutex
-	obs     []thrObs
-	extra   int
-	allDone chan struct{}
+	host     types.Host
+	sess     *scriptedSession
+	mu       sync.Mutex
+	reshaped bool      // this host is taken out of the host set and put back (see thrReshape): results are collected until the controller says so
+	closed   bool      // reshaped host: collection ended
+	readdAt  int       // reshaped host: number of results observed when the fresh host object was added (-1: not yet)
+	lastObs  time.Time // reshaped host: arrival of the latest result
+	obs      []thrObs
+	extra    int
+	allDone  chan struct{}
 }
 
 // one execution of a scripted case against a fresh checker and fresh addresses; stuck = the checker delivered fewer
@@ -262,7 +295,7 @@ func execThresholdCase(t ev.TB, c *thrCase, wait, checkTimeout time.Duration) (o
 		}
 		s := &scriptedSession{script: c.Hosts[i].Script, done: done}
 		sessions.Store(addr, s)
-		hr := &thrHostRun{host: h, sess: s, allDone: make(chan struct{})}
+		hr := &thrHostRun{host: h, sess: s, allDone: make(chan struct{}), readdAt: -1, reshaped: c.Reshape != nil && i == 1}
 		runs[addr] = hr
 		order = append(order, hr)
 		hosts = append(hosts, h)
@@ -295,6 +328,13 @@ func execThresholdCase(t ev.TB, c *thrCase, wait, checkTimeout time.Duration) (o
 			Spurious: atomic.LoadInt32(&hr.sess.spurious)}
 		hr.mu.Lock()
 		defer hr.mu.Unlock()
+		if hr.reshaped {
+			if !hr.closed {
+				hr.obs = append(hr.obs, o)
+				hr.lastObs = time.Now()
+			}
+			return
+		}
 		if len(hr.obs) >= len(hr.sess.script) {
 			hr.extra++ // a result after the script ended (a timeout of the unanswered extra check): not part of the case
 			return
@@ -306,6 +346,75 @@ func execThresholdCase(t ev.TB, c *thrCase, wait, checkTimeout time.Duration) (o
 	})
 	hc.SetHealthCheckerHostSet(cluster.NewHostSet(hosts)) // starts one session checker per host
 
+	abort := make(chan struct{})
+	ctrlDone := make(chan struct{})
+	if c.Reshape != nil {
+		h0, h1 := order[0], order[1]
+		count := func(hr *thrHostRun) int {
+			hr.mu.Lock()
+			defer hr.mu.Unlock()
+			return len(hr.obs)
+		}
+		until := func(cond func() bool, max time.Duration) bool {
+			end := time.Now().Add(max)
+			for !cond() {
+				select {
+				case <-abort:
+					return false
+				default:
+				}
+				if max > 0 && time.Now().After(end) {
+					return true
+				}
+				time.Sleep(100 * time.Microsecond)
+			}
+			return true
+		}
+		go func() {
+			defer close(ctrlDone)
+			if !until(func() bool { return count(h1) >= c.Reshape.RemoveAfter }, 0) {
+				return
+			}
+			hc.SetHealthCheckerHostSet(cluster.NewHostSet(hosts[:1])) // host 1 leaves: its checker is stopped
+			base := count(h0)
+			if !until(func() bool { return count(h0) >= base+c.Reshape.ReaddAfter }, 50*time.Millisecond) {
+				return
+			}
+			fresh := cluster.NewSimpleHost(v2.Host{HostConfig: v2.HostConfig{Address: hosts[1].AddressString(), Hostname: "h1"}}, info)
+			h1.mu.Lock()
+			h1.readdAt = len(h1.obs)
+			h1.mu.Unlock()
+			hc.SetHealthCheckerHostSet(cluster.NewHostSet([]types.Host{hosts[0], fresh})) // and comes back as a new host object
+			// collection ends when the whole script has been served and reported; the check that was in flight when the
+			// checker was stopped may have been served without being reported (then one result is missing: 3 ms of grace)
+			var servedAt time.Time
+			if !until(func() bool {
+				h1.sess.mu.Lock()
+				served := h1.sess.next >= len(h1.sess.script)
+				h1.sess.mu.Unlock()
+				n := count(h1)
+				if !served || n < len(h1.sess.script)-1 {
+					return false
+				}
+				if n >= len(h1.sess.script) {
+					return true
+				}
+				if servedAt.IsZero() {
+					servedAt = time.Now()
+				}
+				return time.Since(servedAt) > 3*time.Millisecond
+			}, 0) {
+				return
+			}
+			h1.mu.Lock()
+			h1.closed = true
+			h1.mu.Unlock()
+			close(h1.allDone)
+		}()
+	} else {
+		close(ctrlDone)
+	}
+
 	// synchronise on the callbacks, never on elapsed time
 	limit := time.After(wait)
 	for _, hr := range order {
@@ -315,6 +424,8 @@ func execThresholdCase(t ev.TB, c *thrCase, wait, checkTimeout time.Duration) (o
 			stuck = true
 		}
 	}
+	close(abort)
+	<-ctrlDone // the controller is the only other caller of SetHealthCheckerHostSet
 	hc.Stop()
 	close(done)
 	return order, stuck
@@ -327,6 +438,9 @@ var thrStallSeen int32
 // observed results of one execution differ from the scripted check results on some host
 func thrDeviation(c *thrCase, order []*thrHostRun) (msg string, where [2]int, found bool) {
 	for i, hr := range order {
+		if hr.reshaped {
+			continue // a check in flight when the checker is stopped is served but not reported
+		}
 		hr.mu.Lock()
 		obs := append([]thrObs(nil), hr.obs...)
 		hr.mu.Unlock()
@@ -395,11 +509,32 @@ func runThresholdCase(t ev.TB, c *thrCase) {
 		deviates := false
 		for k, o := range obs {
 			results[k] = o.IsHealthy
-			if o.IsHealthy != (spec.Script[k] == 'S') {
+			if !hr.reshaped && o.IsHealthy != (spec.Script[k] == 'S') {
 				deviates = true
 			}
 		}
 		wantChanged, wantUnhealthy, crossings := automaton(c, spec.PresetActive, results)
+		if hr.reshaped {
+			// the host left the set and came back as a new host object: the condition stays with the address, the
+			// counting of consecutive results starts afresh with the checker started for the new object
+			hr.mu.Lock()
+			at := hr.readdAt
+			hr.mu.Unlock()
+			if at < 0 || at > len(results) {
+				at = len(results)
+			}
+			ch1, un1, x1 := automaton(c, spec.PresetActive, results[:at])
+			state := spec.PresetActive
+			if len(un1) > 0 {
+				state = un1[len(un1)-1]
+			}
+			ch2, un2, x2 := automaton(c, state, results[at:])
+			wantChanged, wantUnhealthy, crossings = append(ch1, ch2...), append(un1, un2...), x1+x2
+			classes["host-removed-and-re-added"] = true
+			if at < len(results) {
+				classes["host-removed-and-re-added:results-after-re-add"] = true
+			}
+		}
 		if crossings >= 2 {
 			nontrivial = true
 			classes["crossings>=2"] = true
